@@ -41,8 +41,10 @@ CONFIG = {
     "trusted_base": ["rustc/cargo; harness-agg (lib.rs, walk.rs, bin/c15.rs); hook H3 (commit 727a6cd62, cfg mithril_verif)"],
     "assumptions": ["as C14", "a stop is modelled at the granularity of the statements create_certificate / create_artifact_task / the "
                     "buffered hand-over execute (each sqlite statement atomic)"],
-    "goals_not_proved": ["C15_progress_goal (T2): from every post-crash state a fair continuation certifies the interrupted or a "
-                         "superseding round — checked by S on every generated case only",
+    "goals_not_proved": ["C15_progress_goal as first written quantifies over every environment and is FALSE (C15_progress_goal_overquantified: a quorum "
+                         "predicate that never passes, no registrations for the next epoch, an epoch gap — none depends on the crash); the progress "
+                         "statement with its hypotheses explicit is proved (C15_progress_partial, C15_progress_forever, see props.d/C15+progress.py); "
+                         "whether the REAL aggregator makes the same progress is checked by S on every generated case",
                          "repeated crashes are generated by the thorough tier prefixes only through ordinary restarts; the theorems cover them"],
     "timeout": {"quick": 1500, "thorough": 7200},
 }
